@@ -46,23 +46,32 @@ theorem C31_wf_runs_scoped (o : Ops) (sane : o.Sane) (cat : String → Option (L
   have hg := exec_good o sane cat outer hs p h
   intro he; rw [he] at hg; exact hg rfl
 
-/-- Soundness of the qualifier check for one reference: when `qualRef` accepts `r.n` in a list of scopes, the scope
-    the executor reads from (the first in which the engine's resolution succeeds) resolves the reference to a
-    position whose column is named exactly `r.n` — physically, or logically through the enclosing SubqueryAlias. -/
+/-- Soundness of the qualifier check for one reference: when `qualRef` accepts `r.n`, one of its scopes resolves the
+    reference (by the engine's resolution order) to a position whose column is named exactly `r.n` — physically, or logically
+    through the enclosing SubqueryAlias — or is an unqualified column `n` (of no relation, physically and logically). -/
 theorem C31_qual_sound (scopes : List QScope) (r n : String) (h : qualRef scopes r n = true) :
-    ∃ sc i, firstScope scopes r n = some sc ∧ resolve sc.1 (some r) n = some i ∧
-      (nameAt sc.1 i (r ++ "." ++ n) = true ∨ nameAt sc.2 i (r ++ "." ++ n) = true) := by
+    ∃ sc ∈ scopes, ∃ i, resolve sc.1 (some r) n = some i ∧
+      (nameAt sc.1 i (r ++ "." ++ n) = true ∨ nameAt sc.2 i (r ++ "." ++ n) = true ∨
+        (bareAt sc.1 i n = true ∧ bareAt sc.2 i n = true)) := by
   unfold qualRef at h
-  cases hf : firstScope scopes r n with
-  | none => simp [hf] at h
-  | some sc =>
-    simp only [hf] at h
-    unfold exactAt at h
-    cases hr : resolve sc.1 (some r) n with
-    | none => simp [hr] at h
-    | some i =>
-      simp only [hr, Bool.or_eq_true] at h
-      exact ⟨sc, i, rfl, hr, h⟩
+  obtain ⟨sc, hm, hx⟩ := List.any_eq_true.mp h
+  unfold exactAt at hx
+  cases hr : resolve sc.1 (some r) n with
+  | none => simp [hr] at hx
+  | some i =>
+    simp only [hr, Bool.or_eq_true, Bool.and_eq_true] at hx
+    exact ⟨sc, hm, i, hr, hx⟩
+
+/-- Outside subquery expressions (one scope: the batch the operator receives) acceptance is a statement about the column the
+    executor reads: it never carries another relation's qualifier on both the physical and the logical level. -/
+theorem C31_qual_reads (sc : QScope) (r n : String) (h : qualRef [sc] r n = true) :
+    ∃ i, resolve sc.1 (some r) n = some i ∧
+      (nameAt sc.1 i (r ++ "." ++ n) = true ∨ nameAt sc.2 i (r ++ "." ++ n) = true ∨
+        (bareAt sc.1 i n = true ∧ bareAt sc.2 i n = true)) := by
+  obtain ⟨sc', hm, i, hr, hx⟩ := C31_qual_sound [sc] r n h
+  have : sc' = sc := by simpa using hm
+  subst this
+  exact ⟨i, hr, hx⟩
 
 /-- The full checker is at least `wf`: everything `C31_wf_runs` says holds of a plan accepted by `wfq`, and such a plan has
     no offending qualified reference at all. -/
@@ -115,6 +124,13 @@ example : noNewBad (semiOn (joinAB scanA scanB)) (joinAB scanA (semiOn scanB)) =
 -- a derived table: `x.q` over `(SELECT a.k AS q …) AS x` reads the physical field `q`, whose logical name is `x.q`
 example : wfq (.filter (.col (some "x") "q") (.alias "x" none [f ['q'] ['x'] ['i']]
     (.project [.col (some "a") "k"] [{ name := "q", rel := none, ty := "i" }] scanA))) = true := by decide
+
+-- a filter on `x.q` pushed below the SubqueryAlias `x`, onto the Project computing the unqualified `q`, is accepted …
+example : wfq (.alias "x" none [f ['q'] ['x'] ['i']] (.filter (.col (some "x") "q")
+    (.project [.col (some "a") "k"] [{ name := "q", rel := none, ty := "i" }] scanA))) = true := by decide
+-- … but a key `b.k` against the derived table `(SELECT a.k AS k …) AS x` is not: logically that column is `x.k`
+example : qualP (.join .semi [.col (some "b") "k"] [.col (some "tc") "k2"] [] [f ['k'] ['x'] ['i']]
+    (.alias "x" none [f ['k'] ['x'] ['i']] (.project [.col (some "a") "k"] [{ name := "k", rel := none, ty := "i" }] scanA)) scanC) = false := by decide
 
 -- the model does raise column-not-found on the ill-formed plan above (trivial operators, one row [1, 2] in table t)
 def ops0 : Ops := { lit := fun _ _ => none, scalar := fun _ _ _ => .ok none, agg := fun _ _ => .ok none, win := fun _ _ _ => .ok none, subq := fun _ _ _ _ => .ok none }
